@@ -110,6 +110,9 @@ pub struct State {
     pub silent: bool,
     pub panic_msg: String,
     pub panicked: bool,
+    /// a panic has been raised and not yet been caught by `guard`
+    pub in_flight: bool,
+    pub out: Option<std::io::BufWriter<std::io::Stdout>>,
 }
 
 struct Global(UnsafeCell<State>);
@@ -123,12 +126,21 @@ static ST: Global = Global(UnsafeCell::new(State {
     silent: false,
     panic_msg: String::new(),
     panicked: false,
+    in_flight: false,
+    out: None,
 }));
 
 #[inline]
 pub fn st() -> &'static mut State {
     // single-threaded program, short non-reentrant accesses only
     unsafe { &mut *ST.0.get() }
+}
+
+/// the buffered standard output (global so that the panic hook can flush it before an abort)
+#[inline]
+pub fn out() -> &'static mut std::io::BufWriter<std::io::Stdout> {
+    st().out
+        .get_or_insert_with(|| std::io::BufWriter::with_capacity(1 << 16, std::io::stdout()))
 }
 
 pub fn reset_case() {
@@ -164,7 +176,7 @@ pub fn fresh_id() -> u32 {
 #[inline]
 pub fn is_live(id: u32) -> bool {
     let s = st();
-    (id as usize) < s.live.len() && s.live[id as usize] != 0
+    (id as usize) < s.live.len() && s.live[id as usize] == 1
 }
 
 #[inline]
@@ -175,6 +187,16 @@ pub fn set_live(id: u32) {
         s.live.resize(i + 1, 0);
     }
     s.live[i] = 1;
+}
+
+/// The crate handed the element back to the caller: from now on the crate must not touch it.
+#[inline]
+pub fn set_held(id: u32) {
+    let s = st();
+    let i = id as usize;
+    if i < s.live.len() {
+        s.live[i] = 2;
+    }
 }
 
 #[inline]
@@ -273,6 +295,18 @@ pub fn install_panic_hook() {
         // whatever the panic machinery allocates from here on is not the crate's doing
         count_off();
         let s = st();
+        if s.in_flight {
+            // second panic while the first one is still unwinding: the process is about to abort.
+            // Save the completed lines and mark the line of this operation.
+            use std::io::Write as _;
+            s.in_flight = false;
+            if let Some(o) = s.out.as_mut() {
+                let _ = o.write_all(b"P:abort\n");
+                let _ = o.flush();
+            }
+            return;
+        }
+        s.in_flight = true;
         if !s.panicked {
             s.panicked = true;
             s.panic_msg.clear();
@@ -287,6 +321,7 @@ pub fn install_panic_hook() {
 pub fn guard<R>(f: impl FnOnce() -> R) -> Result<R, ()> {
     st().panicked = false;
     let r = std::panic::catch_unwind(AssertUnwindSafe(f));
+    st().in_flight = false;
     count_off();
     match r {
         Ok(v) => Ok(v),
